@@ -771,6 +771,7 @@ class FnSpec:
         self.after = []
         self.afterstmt = []
         self.loopends = {}
+        self.shape = []
         self.opts = []
         self.bodystart = []
         self.bodyend = []
@@ -827,6 +828,11 @@ def parse_template(tpath):
                 cur_block = cur_fn.contract
             elif d.startswith("loop "):
                 cur_block = cur_fn.loops.setdefault(int(d[5:]), [])
+            elif d.startswith("shape "):
+                # a snippet the body must contain for the in-body proof script to apply
+                m = re.match(r"`(.*)`$", d[6:].strip())
+                cur_fn.shape.append(m.group(1).replace("\\n", "\n"))
+                cur_block = None
             elif d.startswith("loopend "):
                 # before the closing brace of the body of the n-th loop
                 cur_block = cur_fn.loopends.setdefault(int(d[8:]), [])
@@ -884,6 +890,7 @@ class Extractor:
         self.vacuity = vacuity
         self.probed = []     # item ids that carry a vacuity probe
         self.loops_gone = []  # item ids checked loop-free because all their loops vanished
+        self.shape_changed = []  # item ids whose body lacks a //@shape snippet: proof script does not apply
         self.pieces = []
         self.log = {}        # item id -> set of rules
         self.hashes = {}     # item id -> sha256 of original text
@@ -1081,6 +1088,10 @@ class Extractor:
         loops_gone = bool(fs.loops) and not loops
         if loops_gone:
             self.loops_gone.append(ident)
+        shape_changed = any(sn not in body for sn in fs.shape)
+        if shape_changed:
+            self.shape_changed.append(ident)
+            self.log.setdefault(ident, set()).add("X9:shape-changed(proof script does not apply; only [script-free] clauses are verdicts)")
 
         def anchored(snip, nth):
             # a function that lost ALL its loops is checked loop-free: hints anchored on text
@@ -1088,8 +1099,8 @@ class Extractor:
             try:
                 return find_nth(snip, nth)
             except AnchorLost:
-                if loops_gone:
-                    self.log.setdefault(ident, set()).add("X9:hint-dropped(anchor vanished with the loops)")
+                if loops_gone or shape_changed:
+                    self.log.setdefault(ident, set()).add("X9:hint-dropped(anchor vanished with the restructuring)")
                     return None
                 raise
         for (snip, blk, tl, nth) in fs.before:
@@ -1184,6 +1195,7 @@ def extract(repo, tpath, vacuity=False):
         "fn_regions": ex.fn_regions,
         "probed": ex.probed,
         "loops_gone": ex.loops_gone,
+        "shape_changed": ex.shape_changed,
     }
     return text, linemap, meta
 
